@@ -122,6 +122,16 @@ def k_seq(run, case):
     for k in range(1, n):
         if arr["t"][k] <= arr["t"][k - 1]:
             arr["t"][k] = arr["t"][k - 1] + 1e-3
+    if (rng.random() < .12 or case.get("long_way")) and n >= 3:
+        # long way travelled before slow motion: the first pose at a local origin, the rest in a
+        # map frame (UTM-like) with millimetre steps; or a long drive followed by standstill jitter
+        if rng.random() < .5:
+            arr["p"][1:] = np.array([4.5e5, 5.4e6, 300.0]) + np.cumsum(rng.normal(size=(n - 1, 3)) * 1e-3, axis=0)
+            arr["p"][0] = 0.0
+        else:
+            h = n // 2
+            arr["p"][:h] = np.cumsum(np.abs(rng.normal(size=(h, 3))) * 2e5 / max(h, 1), axis=0)
+            arr["p"][h:] = arr["p"][h - 1] + rng.normal(size=(n - h, 3)) * 1e-6
     if rng.random() < .25:
         # attitudes looking straight up / down (pitch exactly +-90 degrees: gimbal lock of the roll-pitch-yaw split)
         for k in range(n):
@@ -131,7 +141,7 @@ def k_seq(run, case):
                 arr["R"][k] = rm.rodrigues([0, 0, 1], rng.uniform(-PI, PI)) @ Ry @ rm.rodrigues([1, 0, 0], rng.uniform(-PI, PI)) \
                     if rng.random() < .5 else Ry
     arr2 = {"p": arr["p"] + rng.normal(size=(n, 3)), "R": arr["R"], "t": arr["t"]}
-    stamped = bool(rng.random() < .7)
+    stamped = bool(rng.random() < .7) or bool(case.get("long_way"))
     smode = case.get("smode") or ("se3" if rng.random() < .5 else "xyzq")
     # positions as the user may hand them over: float64, integer grid (Python ints) or float32
     dt = case.get("dtype") or ["float64", "float64", "float64", "int", "float32"][rng.integers(5)]
@@ -415,6 +425,7 @@ def main(run):
                for d in ("int", "float32") for m in ("xy", "zx", "xyz")]
     corpus += [{"seq": ["speeds", "traj_xyz", "speeds", "traj_rpy", "traj_xyz"]},
                {"seq": ["traj_xyz", "traj_rpy", "speeds", "error_array"]}]
+    corpus += [{"seq": ["speeds", "traj_xyz"], "long_way": True, "n": nn, "dtype": "float64"} for nn in (8, 40, 41, 57)]
     # fresh objects of 2..6 poses in both storage modes, the time-series plots first
     corpus += [{"seq": sq, "n": nn, "smode": sm, "fresh": True}
                for nn in (2, 3, 4, 5, 6) for sm in ("xyzq", "se3") for sq in (["traj_rpy", "traj_xyz"], ["traj_xyz", "speeds", "traj_rpy"])]
